@@ -437,7 +437,7 @@ func (in *inst) run(cc *callCtx, k int, c *wcall) rec {
 	return r
 }
 
-const controlRounds = 3000
+const controlRounds = 1000
 
 // callGuarded makes the call in its own goroutine. If it has not returned
 // after a grace period, a control (sched_yield on a fresh instance of the same
